@@ -343,6 +343,13 @@ pub fn stress_strings(payloads: &[&str]) -> Vec<String> {
         v.push(format!("{}{p}", "x".repeat(140_000)));
         v.push(format!("b{p}c"));
     }
+    // a long run of marks at the end of an input beyond 1 MiB; a payload behind / in front of 300 and 5000 spaces
+    v.push(format!("{}e{}", "a".repeat((1 << 20) + 16), "\u{301}".repeat(40)));
+    for p in payloads.iter().take(4) {
+        v.push(format!("a{}b{p}", " ".repeat(300)));
+        v.push(format!("{p}{}", " ".repeat(5000)));
+        v.push(format!("a{}{p}{}b", " ".repeat(20), "  cdefghijklmnopqrstuvwxyz0123456789"));
+    }
     // inputs beyond 1 MiB (lazy / streaming paths that only exist for very large arguments)
     if let Some(p) = payloads.first() {
         v.push(format!("{}{p}", "correct horse battery staple ".repeat(36_200)));
@@ -481,6 +488,48 @@ pub fn zwnj_run_labels() -> Vec<String> {
     v
 }
 
+/// ZWNJ next to one very long transparent run (8192 .. 100000, around 2^15 and 2^16), on either side; `extra` adds longer ones
+pub fn zwnj_huge_run_labels(extra: &[usize]) -> Vec<String> {
+    let mut v = Vec::new();
+    let mut lens = vec![8191usize, 8192, 8193, 16384, 30000, 32767, 32768, 32769, 32773, 65535, 65536, 65537, 100000];
+    lens.extend_from_slice(extra);
+    for n in lens {
+        for (left, right, m) in [('\u{628}', '\u{628}', '\u{5bf}'), ('\u{626}', '\u{627}', '\u{64e}'), ('\u{628}', 'a', '\u{951}')] {
+            for other in [0usize, 2] {
+                let run: String = std::iter::repeat(m).take(n).collect();
+                let short: String = std::iter::repeat('\u{650}').take(other).collect();
+                v.push(format!("{left}{run}\u{200c}{short}{right}"));
+                v.push(format!("{left}{short}\u{200c}{run}{right}"));
+            }
+        }
+        // nothing in front of the run (the scan runs off the start of the label)
+        let run: String = std::iter::repeat('\u{5bf}').take(n).collect();
+        v.push(format!("{run}\u{200c}\u{628}"));
+        v.push(format!("\u{628}\u{200c}{run}"));
+    }
+    v
+}
+
+/// whole-label rules on labels beyond 2^16 / 2^20 / 2^22 code points: the deciding code point is the very last / first one
+pub fn huge_whole_label_labels(extra: &[usize]) -> Vec<String> {
+    let mut v = Vec::new();
+    let mut lens = vec![65536usize, 1 << 20, (1 << 20) + 1, 1 << 22];
+    lens.extend_from_slice(extra);
+    for n in lens {
+        for fill in ['a', '\u{e9}'] {
+            if fill != 'a' && n > (1 << 20) + 1 {
+                continue;
+            }
+            let pad: String = std::iter::repeat(fill).take(n).collect();
+            for (head, tail) in [("\u{660}", "\u{6f0}"), ("\u{6f5}", "\u{665}"), ("\u{660}", "\u{661}"), ("\u{30fb}", "\u{3042}"), ("\u{30fb}", "\u{6f22}"), ("\u{30fb}", "z")] {
+                v.push(format!("{head}{pad}{tail}"));
+                v.push(format!("{tail}{pad}{head}"));
+            }
+        }
+    }
+    v
+}
+
 /// labels with exactly n ASCII words (n = 1..=300), one separator of them doubled / non-ASCII, plus contextual families
 pub fn counted_word_labels() -> Vec<String> {
     let mut v = Vec::new();
@@ -564,6 +613,128 @@ pub fn multi_megabyte_strings(payloads: &[&str]) -> Vec<String> {
             v.push(format!("ab{p}c"));
             v.push(format!("{}{p}", "a".repeat(mb << 20)));
             v.push(format!("xy{p}"));
+        }
+    }
+    v
+}
+
+/// one assigned combining mark per canonical combining class (16.0.0)
+pub fn marks_per_class() -> Vec<char> {
+    let d = db();
+    let mut per_class: std::collections::BTreeMap<u8, char> = std::collections::BTreeMap::new();
+    for cp in 0x300u32..0x1f000 {
+        let k = cp as usize;
+        if d.u16.listed[k] && d.u16.ccc[k] > 0 {
+            if let Some(c) = char::from_u32(cp) {
+                per_class.entry(d.u16.ccc[k]).or_insert(c);
+            }
+        }
+    }
+    per_class.into_values().collect()
+}
+
+/// (mark of each class) in front of / behind every character that has a canonical decomposition, every character with a
+/// lowercase mapping, and every compatibility character that FreeformClass accepts: decompositions whose parts must be
+/// re-ordered around a neighbouring mark, case mappings that expand next to a mark, compatibility capitals next to a mark
+pub fn mark_neighbour_strings(which: u8) -> Vec<String> {
+    let p = pools();
+    let marks = marks_per_class();
+    let mut v = Vec::new();
+    let targets: Vec<char> = match which {
+        0 => p.decomposable.clone(),
+        1 => p.cased_all.clone(),
+        _ => {
+            let d = db();
+            (0x80u32..0x30000)
+                .filter(|cp| d.u16.dtag[*cp as usize] >= crate::ucd::DT_WIDE && matches!(d.ff(*cp), crate::ucd::Dpv::PValid | crate::ucd::Dpv::SpecPval))
+                .filter_map(char::from_u32)
+                .collect()
+        }
+    };
+    for t in targets {
+        for m in &marks {
+            v.push(format!("{t}{m}"));
+            if which == 0 {
+                v.push(format!("a{m}{t}"));
+            }
+        }
+    }
+    v
+}
+
+/// one IdentifierClass-valid representative of every 256-code-point block (all of them in U+F000..U+FFFF, where few exist) in front of
+/// and behind characters that the width / case / normalisation rules rewrite: shortcuts keyed on the block of an earlier character
+pub fn block_representative_strings() -> Vec<String> {
+    let d = db();
+    let mut reps: Vec<char> = Vec::new();
+    let mut block = u32::MAX;
+    for cp in 0x80u32..0x30000 {
+        if !matches!(d.id(cp), crate::ucd::Dpv::PValid) {
+            continue;
+        }
+        if cp >> 8 != block || (0xf000..0x10000).contains(&cp) {
+            block = cp >> 8;
+            if let Some(c) = char::from_u32(cp) {
+                reps.push(c);
+            }
+        }
+    }
+    let followers = ["\u{ff21}\u{ff42}", "\u{ff76}\u{ff9e}", "\u{ffe6}", "\u{ff01}", "A", "\u{130}", "\u{3a3}", "e\u{301}", "\u{1e9b}\u{323}", "\u{ac00}", "\u{3000}x", "\u{a0}x"];
+    let mut v = Vec::new();
+    for r in reps {
+        for f in followers {
+            v.push(format!("{r}{f}"));
+            v.push(format!("{f}{r}"));
+        }
+    }
+    v
+}
+
+/// n distinct characters of a pool (n around 8, 16, 32, 64) followed by one more new character and repeats of earlier ones, optionally
+/// with a separator after every character: per-call memo / ring tables with broken replacement
+pub fn distinct_runs_with_repeats(pool: &[char], sep: &str) -> Vec<String> {
+    let mut v = Vec::new();
+    if pool.len() < 10 {
+        return v;
+    }
+    let step = if pool.len() < 400 { 1 } else { 11 };
+    for start in (0..pool.len()).step_by(step) {
+        for len in [7usize, 8, 9, 15, 16, 17, 18, 31, 32, 33, 34, 63, 64, 65] {
+            if start + len + 2 > pool.len() {
+                continue;
+            }
+            let at = |k: usize| format!("{}{sep}", pool[start + k]);
+            let run: String = (0..len).map(at).collect();
+            let next = at(len);
+            let next2 = at(len + 1);
+            for k in [0usize, 1, 2, len / 2, len - 3, len - 2, len - 1] {
+                v.push(format!("{run}{next}{}", pool[start + k]));
+                v.push(format!("{run}{}{next}", at(k)));
+                v.push(format!("{run}{next}{next2}{}{}", at(k), pool[start + len]));
+            }
+            v.push(format!("{run}{next}{}", pool[start + len]));
+            v.push(format!("{run}{next}{next2}{}", pool[start + len]));
+            v.push(format!("{run}{next}{}{}", at(0), pool[start + 1]));
+        }
+    }
+    v
+}
+
+/// pools interleaved character by character (a, b, c, a, b, c ...), each pool cycled
+pub fn interleave(pools: &[&[char]], total: usize) -> Vec<char> {
+    let mut v = Vec::new();
+    let mut seen = std::collections::HashSet::new();
+    let mut idx = vec![0usize; pools.len()];
+    let mut k = 0usize;
+    while v.len() < total && k < total * 4 {
+        let pi = k % pools.len();
+        k += 1;
+        if idx[pi] < pools[pi].len() {
+            let c = pools[pi][idx[pi]];
+            idx[pi] += 1;
+            if seen.insert(c) {
+                v.push(c);
+            }
         }
     }
     v
